@@ -300,6 +300,14 @@ fn gen_case(rng: &mut Rng, known: &Known) -> Case {
         text.push_str(&lex);
         toks.push(json!({"class": class, "start": start, "end": text.len()}));
     }
+    // now and then something follows the last token: a comment that ends with the input (no line break
+    // behind it), blanks, a line comment without its line break
+    match rng.below(8) {
+        0 => text.push_str(["/* done */", "/* a /* b */ c */", "/**/", "/** x **/"][rng.below(4)]),
+        1 => text.push_str(" // trailing"),
+        2 => text.push_str([" ", "\n", "\t", "\r\n"][rng.below(4)]),
+        _ => {}
+    }
     json!({"kind": "lex", "text": text, "tokens": toks, "excluded": excluded})
 }
 
